@@ -63,6 +63,7 @@ def mc_plan(quick):
         P += [("par-budget-above-pool-3w-5pts", dict(NW=3, NP=5, BUDGET=7, INITFULL="TRUE"), False, None, 6),
               ("par-budget-above-pool-3w", dict(NW=3, NP=4, BUDGET=6, INITFULL="TRUE"), True, None, 4),
               ("par-budget-above-pool-2w", dict(NW=2, NP=4, BUDGET=6, INITFULL="TRUE"), True, None, 1),
+              ("par-4-workers-budget=workers", dict(NW=4, NP=6, BUDGET=4, INITFULL="TRUE"), False, None, 3),
               ("par-budget=workers", dict(NW=3, NP=5, BUDGET=3, INITFULL="TRUE"), True, None, 1),
               ("par-budget<workers", dict(NW=3, NP=5, BUDGET=2, INITFULL="TRUE"), True, None, 1),
               ("par-batch2", dict(NW=3, NP=6, BUDGET=5, BATCH=2, INITFULL="TRUE"), True, None, 1),
@@ -77,6 +78,9 @@ def mc_plan(quick):
     else:
         P += [("par-budget-above-pool", dict(NW=3, NP=5, BUDGET=7, INITFULL="TRUE"), True, None, 6),
               ("par-budget-above-pool-2chg", dict(NW=3, NP=4, BUDGET=6, INITFULL="TRUE", MAXCHG=2), True, None, 4),
+              ("par-4-workers-above-pool", dict(NW=4, NP=5, BUDGET=7, INITFULL="TRUE"), False, None, 6),
+              ("par-4-workers-budget=workers", dict(NW=4, NP=6, BUDGET=4, INITFULL="TRUE"), True, None, 3),
+              ("par-6-points-above-pool", dict(NW=3, NP=6, BUDGET=8, INITFULL="TRUE"), False, None, 6),
               ("par-budget=workers", dict(NW=3, NP=5, BUDGET=3, INITFULL="TRUE", MAXCHG=2), True, None, 2),
               ("par-budget<workers", dict(NW=3, NP=5, BUDGET=2, INITFULL="TRUE", MAXCHG=2), True, None, 1),
               ("par-batch2", dict(NW=3, NP=6, BUDGET=5, BATCH=2, INITFULL="TRUE", MAXCHG=2), True, None, 2),
